@@ -139,7 +139,14 @@ func RunC16(c *Ctx, r *Report) {
 		}
 	}
 	sort.Slice(writes, func(i, j int) bool { return dominatesInstr(writes[i], writes[j]) && writes[i] != writes[j] })
-	okOrder := len(writes) > 0 && sum != nil && isNilConst(sum.Call.Args[0])
+	// Sum(nil) with the result appended to MK, or Sum(MK): the hash appends its output to the accumulated stream
+	sumAcc := false
+	if sum != nil {
+		if ph, ok := sum.Call.Args[0].(*ssa.Phi); ok && ph.Block() == li.header && isByteSlice(ph.Type()) {
+			sumAcc = true
+		}
+	}
+	okOrder := len(writes) > 0 && sum != nil && (isNilConst(sum.Call.Args[0]) || sumAcc)
 	for i := range writes {
 		if i+1 < len(writes) && !dominatesInstr(writes[i], writes[i+1]) {
 			okOrder = false
@@ -167,6 +174,20 @@ func RunC16(c *Ctx, r *Report) {
 				}
 				if ap := isAppendCall(e); ap != nil && ap.Call.Args[0] == ssa.Value(p) && ap.Call.Args[1] == ssa.Value(sum) {
 					mkPhi = p
+				}
+				if sumAcc {
+					// MK = h.Sum(MK); prev = MK[len(MK)-32:]
+					if e == ssa.Value(sum) && sum.Call.Args[0] == ssa.Value(p) {
+						mkPhi = p
+						if prevPhi == p {
+							prevPhi = nil
+						}
+					}
+					if sl, ok := e.(*ssa.Slice); ok && sl.X == ssa.Value(sum) && sl.High == nil && sl.Low != nil {
+						if f.LFOf(sl.Low).key() == f.SliceLen(sum).add(konst(32), -1).key() {
+							prevPhi = p
+						}
+					}
 				}
 			}
 		} else {
